@@ -10,6 +10,7 @@ import (
 	"strings"
 
 	"github.com/douban/gobeansdb/gobeansdb"
+	"github.com/douban/gobeansdb/memcache"
 	"github.com/douban/gobeansdb/quicklz"
 	"github.com/douban/gobeansdb/store"
 	"verif/vfc"
@@ -35,6 +36,8 @@ func main() {
 		store.VFRun(env)
 	case strings.HasPrefix(*mode, "db."):
 		gobeansdb.VFRun(env)
+	case strings.HasPrefix(*mode, "mc."):
+		memcache.VFRun(env)
 	case strings.HasPrefix(*mode, "qlz."):
 		quicklz.VFRun(env)
 	default:
